@@ -18,6 +18,13 @@ from harness import common
 from harness.common import Case, req, ok, fmt_formula
 from harness.props.C11 import mk_bipartite, gen_bip, OFFSETS
 
+
+class Alpha(dict):
+    """assignment: variable -> bool, false where nothing is stored (the offsets go up to 2**64)"""
+
+    def __missing__(self, v):
+        return False
+
 from cnfgen.formula.cnf import CNF
 from cnfgen.formula.opb import OPB
 
@@ -77,7 +84,7 @@ def build_map(suite, info):
             m = info["m"]
             bits = f.bits()
         for bitsval in range(1 << n):
-            alpha = [False] * (off + n + 1)
+            alpha = Alpha()
             for pos, v in enumerate(ids):
                 alpha[v] = bool((bitsval >> pos) & 1)
             got = holds(cs, alpha)
@@ -139,7 +146,7 @@ def build_forbid(info):
         c = f.forbid(i, j)
         ids = list(f(i, None))
         for bitsval in range(1 << bits):
-            alpha = [False] * (off + len(f) + 1)
+            alpha = Alpha()
             for b in range(bits):
                 alpha[f(i, b)] = bool((bitsval >> b) & 1)
             if common.cnf_holds([c], alpha) != (bitsval != j):
